@@ -25,8 +25,14 @@ ND = -9999
 CLOCK = 0   # how integer times map to time stamps: 0 = midnight steps of 5 days, 1 = 12:00 stamps, 2 = 37-hour units (odd clock times)
 
 
+STAMPS = {}      # per-case override: integer time -> the real time stamp (coarse string bounds)
+
+
 def stamp(t):
     import pandas as pd
+
+    if t in STAMPS:
+        return STAMPS[t]
 
     if CLOCK == 1:
         return pd.Timestamp("2000-01-01 12:00") + pd.Timedelta(days=int(t) * 5)
@@ -58,6 +64,23 @@ def execute(c):
 
     global CLOCK
     CLOCK = c.get("clock", 0)
+    STAMPS.clear()
+    bstr = estr = None
+    if c.get("coarse"):
+        # sub-daily axis, bounds given as date-only strings: a date string denotes its first instant (numpy / ISO
+        # semantics, what the pinned code does); the integer model only needs the ORDER of all instants
+        CLOCK = 2
+        axis_ts = [stamp(t) for t in c["rawtime"]]
+        b_ts = None if c["bsrc"] == -1 else stamp(c["bsrc"]).normalize()
+        e_ts = None if c["esrc"] == -1 else stamp(c["esrc"]).normalize()
+        inst = sorted(set(axis_ts + [x for x in (b_ts, e_ts) if x is not None]))
+        code = {ts: 10 + 2 * k for k, ts in enumerate(inst)}
+        STAMPS.update({v: k for k, v in code.items()})
+        c["time"] = [code[ts] for ts in axis_ts]
+        c["b"] = -1 if b_ts is None else code[b_ts]
+        c["e"] = -1 if e_ts is None else code[e_ts]
+        bstr = None if b_ts is None else b_ts.strftime("%Y-%m-%d")
+        estr = None if e_ts is None else e_ts.strftime("%Y-%m-%d")
     from hdc.algo.ops.stats import gammastd_yxt
     from hdc.algo.utils import get_calibration_indices
 
@@ -74,9 +97,9 @@ def execute(c):
     da = cube(times, c["seed"])
     kw = {}
     if c["b"] != -1:
-        kw["calibration_begin"] = str(stamp(c["b"])) if c.get("strdate") else stamp(c["b"])
+        kw["calibration_begin"] = bstr if bstr else (str(stamp(c["b"])) if c.get("strdate") else stamp(c["b"]))
     if c["e"] != -1:
-        kw["calibration_end"] = str(stamp(c["e"])) if c.get("strdate") else stamp(c["e"])
+        kw["calibration_end"] = estr if estr else (str(stamp(c["e"])) if c.get("strdate") else stamp(c["e"]))
     back = {str(stamp(t)): t for t in times}
     groups = c["groups"]
 
@@ -109,7 +132,7 @@ def execute(c):
     else:
         for g in sorted(set(groups)):
             pos = [i for i, gg in enumerate(groups) if gg == g]
-            oc, rs_ = call(da.isel(time=pos), calibration_begin=stamp(b), calibration_end=stamp(e))
+            oc, rs_ = call(da.isel(time=pos), calibration_begin=(bstr if (bstr and c["b"] != -1) else stamp(b)), calibration_end=(estr if (estr and c["e"] != -1) else stamp(e)))
             c["subs"].append({"g": g, "outcome": oc, "out": flat(rs_) if rs_ is not None else []})
         # the same partition under other spellings / orders of the labels
         ids = sorted(set(groups))
@@ -174,6 +197,16 @@ def gen_cases(tier, seed):
         add({"op": "spi", "time": times, "b": b, "e": e, "groups": gr, "seed": rng.randrange(10**6), "strdate": rng.random() < 0.3, "dask": rng.random() < 0.2})
         if gr and b != -1 and e != -1:
             add({"op": "calidx", "time": times, "b": b, "e": e, "groups": gr, "ng": ng})
+    # sub-daily axes with bounds given as date-only strings (coarser than the axis)
+    for _ in range(25 if quick else 250):
+        T = rng.choice([6, 10, 16, 24])
+        raw = sorted(rng.sample(range(0, 3 * T), T))
+        ng = rng.choice([0, 0, 2, 3])
+        gr = [i % ng for i in range(T)] if ng and T >= 4 * ng else []
+        bsrc = rng.choice([-1, rng.choice(raw[: T // 2])])
+        esrc = rng.choice([-1, rng.choice(raw[T // 2 :])])
+        add({"op": "spi", "coarse": True, "rawtime": raw, "bsrc": bsrc, "esrc": esrc, "time": [], "b": 0, "e": 0, "groups": gr, "seed": rng.randrange(10**6)})
+        cases[-1]["clock"] = 2
     # many groups (numeric labels whose string order differs from their numeric order: 2 < 10 but '10' < '2'),
     # several steps per group, window cutting through the first and the last cycle: per-group index pairs differ
     for _ in range(6 if quick else 40):
@@ -225,7 +258,7 @@ def run(tier, seed):
 def replay(path):
     v = json.loads(open(path).read())
     t = v["trace"]
-    c = execute({k: t[k] for k in ("op", "time", "b", "e", "groups", "ng", "seed", "strdate", "dask", "clock") if k in t})
+    c = execute({k: t[k] for k in ("op", "time", "b", "e", "groups", "ng", "seed", "strdate", "dask", "clock", "coarse", "rawtime", "bsrc", "esrc") if k in t})
     c["tid"] = 1
     verdicts, _ = core.validate_batch(MODULE, [c], jobs=1)
     print("replayed", describe(c), "->", verdicts[1])
